@@ -534,6 +534,74 @@ def compose_symbolic_types(p, item, tier, seed):
                 return
 
 
+DEEP_SRC = """
+def deep_problems(shape, depth):
+    # a deep circuit (depth far beyond Python's recursion limit) on concrete total assignments, every entry point
+    import itertools
+    from cirbo.core.circuit import Circuit, gate as G
+    c = Circuit()
+    c.add_inputs(['a', 'b', 'cin'])
+    prev, outs = 'cin', []
+    for i in range(depth):
+        if shape == 'chain':
+            c.emplace_gate(f'd{i}', G.NOT if i % 3 else G.XOR, (prev,) if i % 3 else (prev, 'a'))
+        elif shape == 'ladder':
+            c.emplace_gate(f'd{i}', G.AND if i % 2 else G.XOR, (prev, 'b' if i % 4 < 2 else 'a'))
+        else:  # ripple: a carry chain with a sum bit hanging off every stage
+            c.emplace_gate(f's{i}', G.XOR, (prev, 'a', 'b'))
+            c.emplace_gate(f'd{i}', G.OR, (prev, 'a')) if i % 2 else c.emplace_gate(f'd{i}', G.AND, (prev, 'b'))
+            if i % (depth // 3) == 0:
+                outs.append(f's{i}')
+        prev = f'd{i}'
+    c.set_outputs(outs + [prev])
+    net = {l: (g.gate_type.name, tuple(g.operands)) for l, g in c.gates.items()}
+    bad = []
+    for x in itertools.product((False, True), repeat=3):
+        assign = dict(zip(c.inputs, x))
+        ref = dict(assign)
+        for l, (t, ops) in net.items():      # insertion order is topological here
+            if t != 'INPUT':
+                v = [ref[o] for o in ops]
+                ref[l] = {'NOT': lambda v: not v[0], 'XOR': lambda v: sum(v) % 2 == 1, 'AND': lambda v: all(v), 'OR': lambda v: any(v)}[t](v)
+        want = [ref[o] for o in c.outputs]
+        for name, call in (('evaluate', lambda: list(c.evaluate(list(x)))), ('evaluate_at', lambda: [c.evaluate_at(list(x), i) for i in range(len(c.outputs))]),
+                           ('evaluate_circuit_outputs', lambda: [c.evaluate_circuit_outputs(dict(assign))[o] for o in c.outputs]),
+                           ('evaluate_circuit', lambda: [c.evaluate_circuit(dict(assign))[o] for o in c.outputs]),
+                           ('evaluate_full_circuit', lambda: [c.evaluate_full_circuit(dict(assign))[o] for o in c.outputs])):
+            try:
+                got = call()
+                if [bool(v) for v in got] != want or any(not isinstance(v, bool) for v in got):
+                    bad.append((name, x, 'wrong value'))
+            except BaseException as e:
+                if not isinstance(e, Exception):
+                    raise
+                bad.append((name, x, type(e).__name__))
+        if bad:
+            break
+    if not bad:
+        try:
+            tt = c.get_truth_table()
+            if len(tt) != len(c.outputs) or any(len(r) != 8 for r in tt):
+                bad.append(('get_truth_table', None, 'shape'))
+        except Exception as e:
+            bad.append(('get_truth_table', None, type(e).__name__))
+    return bad
+"""
+exec(DEEP_SRC)  # noqa: S102
+
+
+def deep_unit(p, item, tier, seed):
+    shape, depth = item
+    p.case(("deep", shape, depth), sample=f"{shape} of depth {depth}: every evaluation entry point on all 8 total assignments")
+    try:
+        bad = deep_problems(shape, depth)  # noqa: F821
+    except Exception as e:  # noqa: BLE001
+        bad = [("harness", None, f"{type(e).__name__}: {e}")]
+    p.queries["sat" if bad else "unsat"] += 1
+    if bad:
+        p.violation(f"evaluate:{bad[0][0]}:deep-{shape}", f"{shape} of depth {depth}: {bad[:3]}", REPLAY_PRELUDE + DEEP_SRC + f"\nbad=deep_problems({shape!r}, {depth})\nprint(bad[:3]); sys.exit(1 if bad else 0)\n")
+
+
 def _prod(xs):
     r = 1
     for x in xs:
@@ -581,6 +649,8 @@ def run(rep, tier, seed, only=None):
         per = 60 if thorough else 16
         rep.pmap(compose_concrete, [("seeded", (seed * 1000 + s, per, 14 if thorough else 9, 6 if thorough else 5))
                                     for s in range(n_seeds)])
+    if sub("deep"):
+        rep.pmap(deep_unit, [(sh, d) for sh in ("chain", "ladder", "ripple") for d in ((1500,) if not thorough else (1100, 1500, 4000))])
     if sub("history"):
         rep.pmap(compose_concrete, [("history", seed * 77 + s) for s in range(48 if thorough else 16)])
     if sub("systematic"):
